@@ -280,7 +280,12 @@ def check_history(seed, shard):
             if sp:
                 mech = "C18/structure"
                 if reexport:
-                    mech = "C18/stale-file-cache"
+                    # the history is to blame only when the same workspace survives a cycle through a fresh directory
+                    try:
+                        fresh_ok = not structural_problems(ws, export_import(ws, os.path.join(root, f"F{k}")))
+                    except Exception:
+                        fresh_ok = False
+                    mech = "C18/stale-file-cache" if fresh_ok else "C18/structure"
                 shard.violate(mech, ("re-export into a directory already imported from: " if reexport else "") + "; ".join(sp)[:700], case, "history_no_reuse" if reexport else "structure")
                 continue
             shard.ok("structure")
